@@ -16,17 +16,17 @@ CHECKS = {
     "C04": dict(
         cat="model_checking", ref="5.C04",
         technique="TLA+ spec (ShardFormat oracle + ShardWriter design) model-checked by TLC; real .shard files trace-validated against the oracle; TLC-exported behaviours replayed on the real writer",
-        text="TLC explores every subset and store order of the sharded writer design on a bounded parameter space and proves Design => WellFormedShard /\\ SpecLookup; every real dataset produced in the run (TLC-exported histories plus seeded random grids/triples/subsets/orders, both encodings and strategies) is re-encoded and judged by the same oracle operators (format-following reader written from the format text).",
+        text="TLC explores every subset and store order of the sharded writer design on a bounded parameter space and proves Design => WellFormedShard /\\ SpecLookup; every real dataset produced in the run (TLC-exported histories plus seeded random grids/triples/subsets/orders, both encodings and strategies) is re-encoded and judged by the same oracle operators (format-following reader written from the format text). Sessions with more than 16 shards per scale in raster orders, writer processes that end without close() (exit-handler flush), one accessor closed mid-session and continued into other shards, payloads handed over in a re-used mutable buffer.",
         note=TRUST + "; 'gzip' sub-encoding accepted in zlib or gzip framing."),
     "C05": dict(
         cat="model_checking", ref="5.C05",
         technique="TLA+ spec of the reorder buffer model-checked by TLC (state = function of stored set); store/close/reopen/fetch traces of the real accessor validated by the trace spec; exported permutations replayed",
-        text="TLC proves on the bounded design that the writer state is a function of the stored set (all orders collapse), that read-back through both the format reader and the package's reader returns the stored payload and that never-stored ids yield no data; every exported behaviour (subset x permutation of small grids) and seeded larger histories are executed on the real accessor (both strategies), every grid position fetched through a fresh accessor, file hashes compared per group; verdicts from Trace_Shard.",
+        text="TLC proves on the bounded design that the writer state is a function of the stored set (all orders collapse), that read-back through both the format reader and the package's reader returns the stored payload and that never-stored ids yield no data; every exported behaviour (subset x permutation of small grids) and seeded larger histories are executed on the real accessor (both strategies), every grid position fetched through a fresh accessor, file hashes compared per group; verdicts from Trace_Shard. The same extra session classes as C04 (many shards, exit-handler flush, mid-session close, re-used buffers) are fetched back and compared per order group.",
         note=TRUST + "; zero-length payloads excluded."),
     "C01": dict(
         cat="model_checking", ref="5.C01",
         technique="TLA+ Grid spec (tiler design + OnGrid oracle) model-checked by TLC; Gen_Grid points replayed on the real volume-to-precomputed; recorded conversions (store_chunk coordinates, decoded voxels) trace-validated with an exact-rational value map",
-        text="TLC proves the tiler design writes every voxel exactly once from the same coordinate with every write on-grid (sizes 1..5 x chunk sizes 1..4 per axis, 1-3 channels; the no-clamp deviation fails); the enumerated (size, chunk, channels) points and seeded tool-generated and sharded sub-process conversions (3-D, 4-D, RGB; all dtype pairs; header scaling, --ignore-scaling, --input-min/max, --mmap; deep/flat x gzip x raw/compressed_segmentation x sharded) are run through the real volume-to-precomputed, read back through a fresh accessor + PrecomputedIO, and judged by Trace_Grid (OnGrid, Unwritten, VoxelValue with an exact-rational Map, ConversionRaised, ExitCode). Directed classes: --ignore-scaling on every header class (slope only / intercept only / both; full load and --mmap), header scalings whose results need more than float32's 24-bit mantissa, float64 inputs up to 2^30.",
+        text="TLC proves the tiler design writes every voxel exactly once from the same coordinate with every write on-grid (sizes 1..5 x chunk sizes 1..4 per axis, 1-3 channels; the no-clamp deviation fails); the enumerated (size, chunk, channels) points and seeded tool-generated and sharded sub-process conversions (3-D, 4-D, RGB; all dtype pairs; header scaling, --ignore-scaling, --input-min/max, --mmap; deep/flat x gzip x raw/compressed_segmentation x sharded) are run through the real volume-to-precomputed, read back through a fresh accessor + PrecomputedIO, and judged by Trace_Grid (OnGrid, Unwritten, VoxelValue with an exact-rational Map, ConversionRaised, ExitCode). Directed classes: --ignore-scaling on every header class (slope only / intercept only / both; full load and --mmap), header scalings whose results need more than float32's 24-bit mantissa, float64 inputs up to 2^30. About one conversion in eight runs into a destination that already holds another volume's conversion.",
         note=TRUST + "; exact-arithmetic inputs only (integer/dyadic data and scalings); --input-max rescaling judged for uint8/uint16 targets; uint32/uint64 upper saturation left to C11; sharded outputs and compressed_segmentation use cubic chunks/blocks."),
     "C02": dict(
         cat="model_checking", ref="5.C02",
@@ -36,7 +36,7 @@ CHECKS = {
     "C03": dict(
         cat="model_checking", ref="5.C03",
         technique="TLA+ state machine of the dataset I/O layer (OnGrid oracle, validator design) model-checked by TLC; TLC-generated behaviours replayed on real PrecomputedIO x accessors x codecs and validated by a stateful trace spec; validator judged as a decision function",
-        text="TLC explores all write histories over valid and invalid candidate tuples on three infos and proves that only on-grid positions are stored, that the validator equals the oracle predicate and that a write touches only its own key; behaviours generated by TLC (invalid writes, reads, re-opens) run on the real PrecomputedIO over file (deep/flat x gzip) and sharded accessors, raw / compressed_segmentation / jpeg, all dtypes and 1-3 channels, with a final sweep through a fresh handle; every event is checked by Trace_ChunkStore (byte-exact read-your-writes, shape, dtype, bounded JPEG error); validate_chunk_coords is judged against OnGrid on ~10^4 structured and random 6-tuples per run.",
+        text="TLC explores all write histories over valid and invalid candidate tuples on three infos and proves that only on-grid positions are stored, that the validator equals the oracle predicate and that a write touches only its own key; behaviours generated by TLC (invalid writes, reads, re-opens) run on the real PrecomputedIO over file (deep/flat x gzip) and sharded accessors, raw / compressed_segmentation / jpeg, all dtypes and 1-3 channels, with a final sweep through a fresh handle; every event is checked by Trace_ChunkStore (byte-exact read-your-writes, shape, dtype, bounded JPEG error); validate_chunk_coords is judged against OnGrid on ~10^4 structured and random 6-tuples per run. Datasets mixing encodings / block sizes between their scales, a dataset re-created in place after having been opened through the same accessor object (re-opens also on that same object), and arrays passed in a narrower safely-convertible type (values judged in the dataset's type).",
         note=TRUST + "; JPEG tolerance constants (mean<=8, max<=64) are part of the spec; never-written reads unconstrained."),
     "C06": dict(
         cat="model_checking", ref="5.C06",
@@ -71,7 +71,7 @@ CHECKS = {
     "C12": dict(
         cat="model_checking", ref="5.C12",
         technique="TLA+ state machine of the file accessor (paths, gzip/MIME rules, probe order, ghost 'latest' variables) model-checked by TLC; TLC-generated and random store histories replayed on real accessors and validated step by step by a stateful trace spec; confinement probes for both file accessors",
-        text="TLC explores all store histories up to the bound under the four writer configurations and proves LastWriteWins / NoOverwrite / PathsDocumented for the design (and shows the mixed-MIME deviation breaks them); TLC-simulated behaviours and longer random histories run on real FileAccessor objects, and after every step the directory tree (strict independent gzip inflate), every name and every chunk through all four reader configurations are recorded and checked by Trace_FileStore; path-confinement probes (.., nested .., absolute) for FileAccessor and ShardedFileAccessor.",
+        text="TLC explores all store histories up to the bound under the four writer configurations and proves LastWriteWins / NoOverwrite / PathsDocumented for the design (and shows the mixed-MIME deviation breaks them); TLC-simulated behaviours and longer random histories run on real FileAccessor objects, and after every step the directory tree (strict independent gzip inflate), every name and every chunk through all four reader configurations are recorded and checked by Trace_FileStore; path-confinement probes (.., nested .., absolute) for FileAccessor and ShardedFileAccessor. Names include two siblings that differ only in their last extension; payload versions include a same-length overwrite.",
         note=TRUST + "; known finding: same name stored with MIME types of different compressibility (see known_findings.json)."),
     "C13": dict(
         cat="model_checking", ref="5.C13",
@@ -81,7 +81,7 @@ CHECKS = {
     "C14": dict(
         cat="model_checking", ref="5.C14",
         technique="TLA+ model of the HTTP client request sequence x server fault behaviours model-checked by TLC; TLC-exported fault schedules replayed against a loopback server implementing the documented serving rules; fetch results validated by the trace spec against local reads",
-        text="TLC explores every placement of up to two server faults (404, 5xx, short/long/ignored range, dropped connection) over the request sequence of plain, .shard and legacy .index/.data fetches and proves the client design never returns wrong bytes (and that removing the length check or raise_for_status breaks this); every exported schedule is replayed through get_accessor_for_url against a Range-capable loopback server serving real datasets written by the real writers (URL spellings with/without trailing slash, precomputed:// prefix, empty path), and a fault-free sweep fetches every info and chunk position of many datasets over HTTP and locally; Trace_HttpRead judges WrongBytes, MissingNotError, FaultFreeFailed, PlainErrorClass, Dispatch. Multi-scale sharded datasets are read through ONE HTTP accessor in interleaved order (per-scale reader state must not leak).",
+        text="TLC explores every placement of up to two server faults (404, 5xx, short/long/ignored range, dropped connection) over the request sequence of plain, .shard and legacy .index/.data fetches and proves the client design never returns wrong bytes (and that removing the length check or raise_for_status breaks this); every exported schedule is replayed through get_accessor_for_url against a Range-capable loopback server serving real datasets written by the real writers (URL spellings with/without trailing slash, precomputed:// prefix, empty path), and a fault-free sweep fetches every info and chunk position of many datasets over HTTP and locally; Trace_HttpRead judges WrongBytes, MissingNotError, FaultFreeFailed, PlainErrorClass, Dispatch. Multi-scale sharded datasets are read through ONE HTTP accessor in interleaved order (per-scale reader state must not leak). Pyramids whose scales share sharding parameters and chunk size are read through one accessor in both orders.",
         note=TRUST + "; the loopback server is the environment model of docs/serving-data.rst (flat->deep rewrite, gzip_static, Range/HEAD); a never-stored chunk may be an error or zero bytes."),
     "C15": dict(
         cat="model_checking", ref="5.C15",
@@ -101,7 +101,7 @@ CHECKS = {
     "C18": dict(
         cat="fault_enumeration", ref="5.C18",
         technique="TLA+ refinement of store operations into I/O steps with Fail/Crash actions model-checked by TLC; real operations re-run once per (I/O call, errno) and per crash point under an in-process interposer, every HTTP request faulted once; outcomes classified and judged by the TLC trace spec",
-        text="TLC enumerates every step x {failure, crash before, torn write} of the file-store and shard-close designs and proves the three clauses of the adopted reading (a failed step ends in an error or in a true postcondition; other names untouched; after a crash every chunk is Correct, Old, Absent or detectably Invalid - and shows that writing the shard index first would break this). On the real code a dry run under an interposer (open/write/read/seek/close/stat/mkdir/unlink below the library) lists the I/O calls of each scenario (file accessor deep/flat x gzip x raw/compressed_segmentation: new chunk, overwrite, fetch, info store/fetch/exists; sharded accessor in-memory/on-disk x raw/gzip: write session + close, fetch, file API), then one injected run per (call, plausible errno) and per crash point is made; a fresh accessor + PrecomputedIO reads every chunk afterwards and TLC classifies the results. HTTP: every single fault placement on plain, .shard and legacy fetches. Command-line level: every writing tool (volume-to-precomputed incl. --generate-info, generate-scales-info, the all-in-one pyramid, slices plain/sharded, compute-scales, convert-chunks, mesh-to-precomputed, link-mesh-fragments) runs as a real sub-process under the interposer, exit phase included, with the dataset directory AND the tool's TMPDIR enumerated; in-process sharded sessions with one/two minishards and fully out-of-order stores; completeness of the enumeration itself is audited with strace (system calls on the enumerated directories vs the interposer log).",
+        text="TLC enumerates every step x {failure, crash before, torn write} of the file-store and shard-close designs and proves the three clauses of the adopted reading (a failed step ends in an error or in a true postcondition; other names untouched; after a crash every chunk is Correct, Old, Absent or detectably Invalid - and shows that writing the shard index first would break this). On the real code a dry run under an interposer (open/write/read/seek/close/stat/mkdir/unlink below the library) lists the I/O calls of each scenario (file accessor deep/flat x gzip x raw/compressed_segmentation: new chunk, overwrite, fetch, info store/fetch/exists; sharded accessor in-memory/on-disk x raw/gzip: write session + close, fetch, file API), then one injected run per (call, plausible errno) and per crash point is made; a fresh accessor + PrecomputedIO reads every chunk afterwards and TLC classifies the results. HTTP: every single fault placement on plain, .shard and legacy fetches. Command-line level: every writing tool (volume-to-precomputed incl. --generate-info, generate-scales-info, the all-in-one pyramid, slices plain/sharded, compute-scales, convert-chunks, mesh-to-precomputed, link-mesh-fragments) runs as a real sub-process under the interposer, exit phase included, with the dataset directory AND the tool's TMPDIR enumerated; in-process sharded sessions with one/two minishards and fully out-of-order stores; completeness of the enumeration itself is audited with strace (system calls on the enumerated directories vs the interposer log). Fault modes: errno failure, crash, torn write and POSIX short write (partial data, then error for buffered files / short count for raw ones). The sharded writer with stores that fail half-way is also model-checked (ShardWriterFaults: a close that returns has written every accepted chunk; the switch without the broken-flag must fail).",
         note=TRUST + "; crash model = prefix of the write sequence (last write possibly torn), directory entries persist; OS-level reordering and power-loss of unsynced data are not modelled; clause (1) counts OSError subclasses (incl. requests exceptions, ShardedIOError) and DataAccessError as I/O errors."),
     "C19": dict(
         cat="model_checking", ref="5.C19",
